@@ -337,6 +337,7 @@ def _book(acc, job, deadline):
 
 
 def run_job(job, deadline):
+    mc.set_group_order(job["id"])
     acc = JobAcc(job)
     if job["kind"] == "cert":
         _cert(acc, job, deadline)
@@ -352,6 +353,7 @@ def replay(cex):
     import time
 
     job, mdl = cex["job"], cex["model"]
+    mc.set_group_order(job["id"])
     setup()
     core.patch_environment()
     acc = JobAcc(job)
